@@ -125,17 +125,21 @@ def object_route(sig, fs, f_range, center, method, bk, th, fek, return_samples=T
     if th is not None:
         th0 = {((k[:-len('_threshold')] if shorthand and k.endswith('_threshold') else k)): v for k, v in th.items()}
         if 'min_n_cycles' in th0: th0['min_n_cycles'] = th0['min_n_cycles'] + 5
+    # half of the histories hand the requested find_extrema_kwargs to the CONSTRUCTOR (and keep them), the other half start from other
+    # ones and rebind the attribute before the second fit
+    ctor_fek = fek if (len(sig) % 2 == 0) else {'filter_kwargs': {'n_cycles': 3}, 'boundary': 0}
     bm = quiet(Bycycle, center_extrema=('trough' if center == 'peak' else 'peak'), burst_method=method,
                burst_kwargs=(None if bk is None else _copy.deepcopy(bk)), thresholds=th0,
-               find_extrema_kwargs={'filter_kwargs': {'n_cycles': 3}, 'boundary': 0}, return_samples=not return_samples)
+               find_extrema_kwargs=ctor_fek, return_samples=not return_samples)
     try:
         quiet(bm.fit, sig, fs, f_range)
     except Exception:
         pass
     bm.center_extrema = center
     bm.return_samples = return_samples
-    if fek is not None: bm.find_extrema_kwargs = fek
-    else: bm.find_extrema_kwargs = {'filter_kwargs': {'n_cycles': 3}}
+    if len(sig) % 2 != 0:
+        if fek is not None: bm.find_extrema_kwargs = fek
+        else: bm.find_extrema_kwargs = {'filter_kwargs': {'n_cycles': 3}}
     if th is not None and 'min_n_cycles' in th: bm.thresholds['min_n_cycles'] = th['min_n_cycles']       # in-place edit
     quiet(bm.fit, sig, fs, f_range)
     return bm.df_features
